@@ -119,8 +119,13 @@ def names_exact(t, word):
     return lst(t[1], t[2], lambda x: names_exact(x, word))
 
 
+CONN_NAMES = None      # optional {id(message): name the reference model gives the message's connection}
+
+
 def conn_name(msg):
     """the connection the message arrived on (`unknown` only for a message that never went through a connection)"""
+    if CONN_NAMES is not None and id(msg) in CONN_NAMES:
+        return CONN_NAMES[id(msg)]
     c = msg.obj.connection if msg.obj.connection is not None else getattr(msg, 'connection', None)
     return c.name() if c is not None else 'unknown'
 
@@ -290,6 +295,9 @@ def vocab(specs):
     W = model.MWorld()
     winners = histgen.winners_map()
     for m in specs:
+        if m.get('destroy'):
+            W.close(m['conn'])
+            continue
         rec = W.step(m)
         V['conn'].add(rec['conn'].name)
         t = rec['target']
@@ -426,6 +434,10 @@ class Gen:
             if d.chance(0.35) and (self.V.get('int') or self.V.get('fd')):
                 # a float spelling of an integer / fd that occurs: must select fixed-point arguments only
                 return ['float', float(d.choice(self.V.get('int', []) + self.V.get('fd', [])))]
+            fl = sorted(self.V.get('float', []))
+            close = [x for i, x in enumerate(fl) if (i > 0 and x - fl[i - 1] < 0.01) or (i + 1 < len(fl) and fl[i + 1] - x < 0.01)]
+            if close and d.chance(0.6):
+                return ['float', d.choice(close)]       # one of two values that lie next to each other
             return ['float', d.choice(self.V.get('float', []) + [0.5, 7.0, 1.5])]
         if k == 2:
             ok = [x for x in self.V.get('str', []) if not set(x) & set('"()[]\t,!') and x == x.strip() and x]
